@@ -59,6 +59,22 @@ const OPS1: [(&str, &str); 19] = [
 const IDENTS: [&str; 22] = [
     "a", "abc", "alsof", "ja_", "stelling", "_", "x1", "_9z", "één", "αβγ", "変数", "nee2", "functies", "stopje", "Als", "JA", "anders_", "zolangs", "antwoorden", "volgende1", "ß", "k_2_z",
 ];
+/// every keyword with something attached in front or behind (ASCII and non-ASCII letters, digits, underscore, another
+/// keyword): still ONE identifier, spelled exactly so
+const AFFIXES: [&str; 12] = ["a", "_", "1", "é", "ë", "ß", "α", "変", "E", "é1", "_é", "ja"];
+
+fn keyword_identifier(i: u64) -> String {
+    let n = (KEYWORDS.len() * AFFIXES.len()) as u64;
+    let k = KEYWORDS[((i % n) as usize) / AFFIXES.len()].0;
+    let a = AFFIXES[((i % n) as usize) % AFFIXES.len()];
+    match (i / n) % 3 {
+        0 => format!("{}{}", k, a),
+        // a digit cannot start an identifier
+        1 if !a.starts_with('1') => format!("{}{}", a, k),
+        _ => format!("{}{}{}", k, a, k),
+    }
+}
+
 const INTS: [&str; 6] = ["0", "42", "007", "1152921504606846975", "9", "10"];
 const FLOATS: [&str; 5] = ["1.5", "0.25", "10.", "3.1415", "0.0"];
 // the letters n and t matter: a backslash in front of them is an escape, an escaped backslash in front of them is not
@@ -124,8 +140,8 @@ fn random_token(r: &mut Rng) -> Tok {
             Tok { text: t.to_string(), kind: k, payload: String::new() }
         }
         2 | 3 => {
-            let t = *r.pick(&IDENTS);
-            Tok { text: t.to_string(), kind: "Identifier", payload: t.to_string() }
+            let t = if r.chance(1, 3) { keyword_identifier(r.below(360)) } else { r.pick(&IDENTS).to_string() };
+            Tok { text: t.clone(), kind: "Identifier", payload: t }
         }
         4 => {
             let t = *r.pick(&INTS);
@@ -307,6 +323,7 @@ impl C08 {
                 ("string-decode", 1 + 8 + 64 + 512),
                 ("token-sequences", 400),
                 ("adjacent-pairs", 200),
+                ("keyword-identifiers", 120),
                 ("conservation-directed", DIRECTED_CONSERVATION.len() as u64),
                 ("conservation-programs", 60),
                 ("conservation-mutants", 200),
@@ -316,6 +333,7 @@ impl C08 {
             ("string-decode", 1 + 8 + 64 + 512 + 4096),
             ("token-sequences", t.pick(60_000, 3_000_000)),
             ("adjacent-pairs", 3000),
+            ("keyword-identifiers", 360),
             ("conservation-directed", DIRECTED_CONSERVATION.len() as u64),
             ("conservation-programs", t.pick(20_000, 500_000)),
             ("conservation-mutants", t.pick(60_000, 2_000_000)),
@@ -495,6 +513,22 @@ impl Check for C08 {
                 }
                 self.check_sequence(&toks, &seps, st, name);
             }
+            "keyword-identifiers" => {
+                // complete: every keyword x every affix x {behind, in front, between two keywords}, alone and in a program
+                let id = keyword_identifier(i);
+                st.distinct_hash(crate::rng::hash_str(&id));
+                let t = Tok { text: id.clone(), kind: "Identifier", payload: id.clone() };
+                let stel = Tok { text: "stel".to_string(), kind: "Declare", payload: String::new() };
+                let eq = Tok { text: "=".to_string(), kind: "Assign", payload: String::new() };
+                self.check_sequence(&[t.clone()], &[], st, name);
+                self.check_sequence(&[stel, t.clone(), eq, t.clone()], &[" ".to_string(), String::new(), String::new()], st, name);
+                // and end to end: a variable of that name can be declared and read
+                let o = crate::obs::eval_observed(&format!("stel {} = 41; {} + 1", id, id), &crate::obs::ObsCfg::plain(1000));
+                st.evaluations += 1;
+                if !matches!(&o.outcome, crate::obs::Outcome::Value(crate::val::Val::Int(42))) {
+                    st.violation("keyword-identifiers:as-variable", format!("`stel {0} = 41; {0} + 1` gave {1}", id, o.outcome.render()), &id);
+                }
+            }
             "adjacent-pairs" => {
                 // directed: two tokens next to each other with no separator wherever the model allows
                 let a = random_token(&mut r);
@@ -558,7 +592,7 @@ impl Check for C08 {
             inconclusive.push("too few damaged texts parsed for the conservation check to mean anything".to_string());
         }
         Summary {
-            rule: "(1) random token sequences over the complete vocabulary, each gap rendered with no separator (where a maximal-munch model allows), one of the 11 whitespace code points or a comment; the lexer's (kind, text) stream must equal the sequence written. (2) conservation: every damaged / random text that parses must contain no content token that is missing from the tree. (3) every string content of length <= 4 over {n t \" \\ newline tab é 💖} in every encoding, as declaration and next to identifiers / other strings. distinct = distinct token sequences / texts / contents".to_string(),
+            rule: "(1) random token sequences over the complete vocabulary, each gap rendered with no separator (where a maximal-munch model allows), one of the 11 whitespace code points or a comment; the lexer's (kind, text) stream must equal the sequence written. (2) conservation: every damaged / random text that parses must contain no content token that is missing from the tree. (1b) every keyword with one of 12 ASCII / non-ASCII affixes behind it, in front of it, or between two copies of it is one identifier with exactly that spelling and can be declared and read as a variable. (3) every string content of length <= 4 over {n t \" \\ newline tab é 💖} in every encoding, as declaration and next to identifiers / other strings. distinct = distinct token sequences / texts / contents".to_string(),
             exhaustive: Some(true),
             extra: json!({
                 "exhaustive_parts": ["all 4 681 string contents of length <= 4 over an 8-character alphabet, in every raw/escaped encoding of newline and tab, in 4 embeddings"],
